@@ -52,3 +52,8 @@ CLAIMS["C16"] = {
     "note": "Uniformity is statistical (stated false-alarm bound). Pushes overlapping a drain are a listed known finding; every other anomaly is a violation.",
     "technique": "runtime monitoring: exact reference model per push/drain cycle; fixed-threshold binomial retention test; gated push/drain overlap with exactly-once interval oracle; Miri",
 }
+CLAIMS["C15"] = {
+    "text": "Exploration: tens of thousands of (bounds, samples, batching) cases against the <= / cumulative / +Inf / single-vs-batch rules; override precedence against a reference matcher; rolling summaries driven by a mock clock at window and bucket edges with outliers that must expire. Held = no counterexample among the cases observed.",
+    "note": "Matcher precedence among several candidates of the same class is not judged (the property orders classes only). Rendered output of these structures is cross-checked by C07/C08.",
+    "technique": "runtime monitoring: reference bucket/matcher/window models compared with the real structures over generated cases (mock clock)",
+}
